@@ -154,6 +154,10 @@ type hostileResult struct {
 
 // runHostile feeds b (through rd for the reader entry points) and classifies the behaviour.
 // budgetMul scales the allocation allowance check (0 = no allocation check).
+// extraAllow widens the allocation allowance for families where the decoded value is legitimately larger than
+// linear in the input (n fields each receiving their own converted copy of one k-element list: n*k elements).
+var extraAllow uint64
+
 func runHostile(c *core.Ctx, entry int, b []byte, rd *guard.Reader, tm map[string]reflect.Type, desc, shape string, allocCheck bool) string {
 	var ms0, ms1 runtime.MemStats
 	if allocCheck {
@@ -211,7 +215,7 @@ func runHostile(c *core.Ctx, entry int, b []byte, rd *guard.Reader, tm map[strin
 	if allocCheck {
 		runtime.ReadMemStats(&ms1)
 		grow := ms1.TotalAlloc - ms0.TotalAlloc
-		if allow := uint64(8<<20 + 1024*len(b)); grow > allow {
+		if allow := uint64(8<<20+1024*len(b)) + extraAllow; grow > allow {
 			return report("allocation", fmt.Sprintf("allocated more than 8 MiB + 1 KiB per input byte for an input of class %s", sizeClass(len(b))))
 		}
 	}
@@ -804,6 +808,128 @@ func init() {
 				c.Res.Extra["distinct_names_fed"] = int64(n)
 				c.Cover("name-flood")
 			}})
+			// type names made of brackets: a list type name is data, however long
+			us = append(us, core.Unit{Name: "bracket-names", Cost: 100, Run: func(c *core.Ctx) {
+				for _, elem := range []string{"int", "long", "string", "double", "boolean", "object", "Inner", "com.example.X", ""} {
+					for _, form := range []string{"x71 typed list of one", "x55 variable typed list", "V typed list with count", "M typed map"} {
+						for _, n := range []int{1, 2, 8, 100, 1000, 4000, 12000, 30000, 60000} {
+							if !c.Begin() {
+								continue
+							}
+							c.NontrivialN(1)
+							c.Res.States++
+							name := strings.Repeat("[", n) + elem
+							var b []byte
+							switch form {
+							case "x71 typed list of one":
+								b = append(b, 0x71)
+							case "x55 variable typed list":
+								b = append(b, 0x55)
+							case "V typed list with count":
+								b = append(b, 'V')
+							default:
+								b = append(b, 'M')
+							}
+							if len(name) < 32 {
+								b = append(append(b, byte(len(name))), name...)
+							} else {
+								b = append(append(b, 'S', byte(len(name)>>8), byte(len(name))), name...)
+							}
+							switch form {
+							case "x71 typed list of one":
+								b = append(b, 0x91)
+							case "x55 variable typed list":
+								b = append(b, 0x91, 'Z')
+							case "V typed list with count":
+								b = append(b, 0x91, 0x91)
+							default:
+								b = append(b, 0x91, 0x92, 'Z')
+							}
+							desc := fmt.Sprintf("%s whose type name is %d x '[' + %q (%d bytes)", form, n, elem, len(b))
+							out := "returned"
+							for cfg := 0; cfg < 2 && out == "returned"; cfg++ {
+								out = runHostile(c, 0, b, guard.NewReader(b), c14TypeMap(cfg), desc+" ("+c14Configs[cfg]+")", "bracket-names", true)
+							}
+							c.Outcome(out)
+							if out != "returned" {
+								break // longer names would only cost more
+							}
+						}
+					}
+				}
+				c.Cover("bracket-names")
+			}})
+			// fan-in: many fields / elements refer to one earlier container
+			us = append(us, core.Unit{Name: "fan-in", Cost: 100, Run: func(c *core.Ctx) {
+				str := func(s string) []byte { return append([]byte{byte(len(s))}, s...) }
+				tm := map[string]reflect.Type{"SlI32": reflect.TypeOf(zoo.SlI32{}), "SlAny": reflect.TypeOf(zoo.SlAny{}), "MpStrI32": reflect.TypeOf(zoo.MpStrI32{}), "[int": reflect.TypeOf([]int32{})}
+				for _, target := range []string{"untyped list of 1000 ints", "typed list of 1000 ints", "map of 300 entries"} {
+					for _, holder := range []string{"SlI32.l", "SlAny.l", "MpStrI32.m", "bare references"} {
+						for _, n := range []int{1, 2, 10, 50, 100, 200, 400, 800, 1600, 5000, 20000} {
+							if !c.Begin() {
+								continue
+							}
+							c.NontrivialN(1)
+							c.Res.States++
+							// outer list (ordinal 0): the target (ordinal 1), then n holders each referring to it
+							var b []byte
+							b = append(b, 0x57)
+							switch target {
+							case "untyped list of 1000 ints":
+								b = append(b, 0x58, 0xcb, 0xe8)
+								for i := 0; i < 1000; i++ {
+									b = append(b, 0x90+byte(i%40))
+								}
+							case "typed list of 1000 ints":
+								b = append(append(append(b, 'V'), str("[int")...), 0xcb, 0xe8)
+								for i := 0; i < 1000; i++ {
+									b = append(b, 0x90+byte(i%40))
+								}
+							default:
+								b = append(b, 'H')
+								for i := 0; i < 300; i++ {
+									b = append(append(b, str(fmt.Sprintf("k%03d", i))...), 0x90+byte(i%40))
+								}
+								b = append(b, 'Z')
+							}
+							if holder != "bare references" {
+								f := strings.Split(holder, ".")
+								b = append(append(append(append(b, 'C'), str(f[0])...), 0x91), str(f[1])...)
+							}
+							for i := 0; i < n; i++ {
+								if holder != "bare references" {
+									b = append(b, 0x60)
+								}
+								b = append(b, 0x51, 0x91)
+							}
+							b = append(b, 'Z')
+							desc := fmt.Sprintf("%s, then %d x %s referring to it (%d bytes)", target, n, holder, len(b))
+							if _, err := rh.ParseOne(b); err != nil {
+								c.Report(&core.Violation{Stage: "selfcheck", Kind: "harness", Shape: "R1", Message: err.Error(), Case: desc})
+								break
+							}
+							k := 1000
+							if target == "map of 300 entries" {
+								k = 300
+							}
+							// every holder may get its own converted copy, no more: a []int32 / []interface{} copy costs up to
+							// ~24 bytes per element, a Go map copy a few hundred bytes per entry (buckets, boxed keys)
+							per := 96
+							if k == 300 {
+								per = 768
+							}
+							extraAllow = uint64(per * n * k)
+							out := runHostile(c, 0, b, guard.NewReader(b), tm, desc, "fan-in", true)
+							extraAllow = 0
+							c.Outcome(out)
+							if out != "returned" {
+								break
+							}
+						}
+					}
+				}
+				c.Cover("fan-in")
+			}})
 			// (4) ladders
 			for k := range ladderNames {
 				k := k
@@ -833,7 +959,7 @@ func init() {
 			return us
 		},
 		RequireCover: func(string) []string {
-			return []string{"lazy-full", "lazy-tags", "edit", "amplification", "ladder", "cycles", "dags", "name-flood"}
+			return []string{"lazy-full", "lazy-tags", "edit", "amplification", "ladder", "cycles", "dags", "name-flood", "bracket-names", "fan-in"}
 		},
 	})
 }
